@@ -6,6 +6,7 @@ import narwhals as nw
 import polars as pl
 from pydantic import BaseModel, ConfigDict, Field, field_validator
 
+from rtflite.core.constants import RTFConstants
 from rtflite.row import (
     BORDER_CODES,
     FORMAT_CODES,
@@ -640,6 +641,16 @@ class TableAttributes(TextAttributes):
                 row_idx + row_offset, col_idx
             )
 
+        def make_border(side, row_idx, col_idx):
+            """Build a cell border from the style, width and color attributes."""
+            width = get_broadcast_value("border_width", row_idx, col_idx)
+            color = get_broadcast_value(f"border_color_{side}", row_idx, col_idx)
+            return Border(
+                style=get_broadcast_value(f"border_{side}", row_idx, col_idx),
+                width=RTFConstants.DEFAULT_BORDER_WIDTH if width is None else width,
+                color=color or None,
+            )
+
         if self.cell_nrow is None:
             self.cell_nrow = [[0.0 for _ in range(dim[1])] for _ in range(dim[0])]
 
@@ -665,11 +676,7 @@ class TableAttributes(TextAttributes):
 
             for j in range(dim[1]):
                 if j == dim[1] - 1:
-                    border_right = Border(
-                        style=BroadcastValue(
-                            value=self.border_right, dimension=dim
-                        ).iloc(i, j)
-                    )
+                    border_right = make_border("right", i, j)
                 else:
                     border_right = None
 
@@ -698,12 +705,10 @@ class TableAttributes(TextAttributes):
                         hyphenation=get_broadcast_value("text_hyphenation", i, j),
                     ),
                     width=col_widths[j],
-                    border_left=Border(style=get_broadcast_value("border_left", i, j)),
+                    border_left=make_border("left", i, j),
                     border_right=border_right,
-                    border_top=Border(style=get_broadcast_value("border_top", i, j)),
-                    border_bottom=Border(
-                        style=get_broadcast_value("border_bottom", i, j)
-                    ),
+                    border_top=make_border("top", i, j),
+                    border_bottom=make_border("bottom", i, j),
                     vertical_justification=get_broadcast_value(
                         "cell_vertical_justification", i, j
                     ),
